@@ -158,6 +158,8 @@ class MerkleCache(object):
         self.level = []
         self.depth_higher = 0
         self.initialized = Event()
+        # Incremented by truncate() so coroutines can tell it ran while they were waiting
+        self._truncations = 0
 
     def _segment_length(self):
         return 1 << self.depth_higher
@@ -174,14 +176,16 @@ class MerkleCache(object):
 
     async def _extend_to(self, length):
         '''Extend the length of the cache if necessary.'''
-        if length <= self.length:
-            return
-        # Start from the beginning of any final partial segment.
-        # Retain the value of depth_higher; in practice this is fine
-        start = self._leaf_start(self.length)
-        hashes = await self.source_func(start, length - start)
-        self.level[start >> self.depth_higher:] = self._level(hashes)
-        self.length = length
+        while length > self.length:
+            # Start from the beginning of any final partial segment.
+            # Retain the value of depth_higher; in practice this is fine
+            truncations = self._truncations
+            start = self._leaf_start(self.length)
+            hashes = await self.source_func(start, length - start)
+            # Discard what was read if the cache was truncated in the meantime
+            if truncations == self._truncations:
+                self.level[start >> self.depth_higher:] = self._level(hashes)
+                self.length = length
 
     async def _level_for(self, length):
         '''Return a (level_length, final_hash) pair for a truncation
@@ -209,6 +213,7 @@ class MerkleCache(object):
             raise TypeError('length must be an integer')
         if length <= 0:
             raise ValueError('length must be positive')
+        self._truncations += 1
         if length >= self.length:
             return
         length = self._leaf_start(length)
@@ -230,6 +235,19 @@ class MerkleCache(object):
         if index >= length:
             raise ValueError('index must be less than length')
         await self.initialized.wait()
+        # Recalculate if the cache is truncated while the source is being read
+        while True:
+            truncations = self._truncations
+            try:
+                result = await self._branch_and_root(length, index, tsc_format)
+            except Exception:
+                if truncations == self._truncations:
+                    raise
+            else:
+                if truncations == self._truncations:
+                    return result
+
+    async def _branch_and_root(self, length, index, tsc_format):
         await self._extend_to(length)
         leaf_start = self._leaf_start(index)
         count = min(self._segment_length(), length - leaf_start)
